@@ -222,6 +222,37 @@ def check_contract_premises(prog: Program, res: Result) -> None:
                     okp = astq.const_value(l) == 0 and astq.const_value(tp) == 0 and norm(rgt) == f"max_width - {norm(tw)}" and norm(bt) == f"max_height - {norm(th)}"
                     res.ob(R, okp, fi.qualname, "padding fills max - target at the right/bottom", f"the padding is ({short(l,10)}, {short(rgt,40)}, {short(tp,10)}, {short(bt,40)})", where)
             res.ob(R, seen_r <= {H, W, f"min({H}, {W})", f"min({W}, {H})"} and len(seen_r) >= 1, fi.qualname, "ratios = max/actual", f"ratios are {sorted(seen_r)}", fi.where)
+    # the unchanged image is handed back only when BOTH sides already have the target size; one equal side (ratio 1) with the
+    # other side smaller still needs the bottom/right padding, or samples of one dataset come out at different sizes
+    prs = astq.path_returns(fn)
+    n_ident = 0
+    for conds, v in prs or []:
+        if not (isinstance(v, ast.Tuple) and len(v.elts) == 2 and astq.const_value(v.elts[1]) == 1.0 and norm(v.elts[0]) == fi.params[0]):
+            continue
+        n_ident += 1
+        eq = set()
+        for t, taken in conds:
+            parts = []
+            if isinstance(t, ast.BoolOp) and isinstance(t.op, ast.Or) and not taken:
+                parts = [(x, False) for x in t.values]     # not (a or b)  =  not a and not b
+            elif isinstance(t, ast.BoolOp) and isinstance(t.op, ast.And) and taken:
+                parts = [(x, True) for x in t.values]
+            else:
+                parts = [(t, taken)]
+            for x, tk in parts:
+                if isinstance(x, ast.Compare) and len(x.ops) == 1 and isinstance(x.ops[0], (ast.Eq, ast.NotEq)) and (isinstance(x.ops[0], ast.Eq) == tk):
+                    sides = {norm(x.left), norm(x.comparators[0])}
+                    for dim, prm in (("h", "max_height"), ("w", "max_width")):
+                        if prm in sides and any(".shape" in s_ for s_ in sides - {prm}):
+                            eq.add(dim)
+                elif isinstance(x, ast.Compare) and len(x.ops) == 1 and isinstance(x.ops[0], ast.Is) and tk and astq.const_value(x.comparators[0]) is None:
+                    for dim, prm in (("h", "max_height"), ("w", "max_width")):
+                        if norm(x.left) == prm:
+                            eq.add(dim)        # the target defaults to the image's own size
+        res.ob(R, eq == {"h", "w"}, fi.qualname, "identity only when height AND width already match the target",
+               f"apply_sizematcher returns the image unchanged on a path that only establishes {sorted(eq) or 'nothing'} of (height == max_height, width == max_width) "
+               f"({'; '.join(('' if tk else 'not ') + short(t, 50) for t, tk in conds)}): a frame that needs padding only keeps its size", fi.where)
+    res.ob(R, prs is None or n_ident >= 1, fi.qualname, "an identity path exists", "apply_sizematcher has no path that returns the image unchanged with ratio 1.0", fi.where)
     ri = prog.func(f"{RS}:resize_image")
     res.touch(ri)
     pr = astq.path_returns(ri.node)
@@ -461,6 +492,10 @@ def check(prog: Program, res: Result) -> None:
     res.floor("C04-corner", 3)
     from . import c02
     res.borrow(c02.check_conv, "C04-corner", prog)
+    # the image served from an .npz chunk is the image that was written (same layout: the reader inverts the writer), so the
+    # keypoints stored next to it still lie on it (shared with C18-npz)
+    from . import c18 as _c18
+    res.borrow(_c18.check_npz, "C04-npz", prog)
     res.assumptions += ["sub-pixel interpolation error, exact output sizes and the affine itself (kornia) are not decided"]
 
 
